@@ -142,6 +142,13 @@ pub fn run(ctx: &mut Ctx) {
             return;
         }
         if !st.converged {
+            // the response to the first pulse had died away within one period, yet the periodic
+            // output never repeats: the pulses are not rate/20 samples apart (or the filter
+            // wanders) — nothing a stationary input can do
+            if st.first_decayed && !st.growing() {
+                ctx.violation("response-does-not-settle", descr().set("frames", st.frames_used));
+                return;
+            }
             ctx.count("not_converged_skipped", 1.0);
             return;
         }
